@@ -585,7 +585,6 @@ func copyGhost(st *State) map[string]Value {
 	return g
 }
 
-
 // reachable collects the mutable heap objects reachable from v (regexp
 // objects are immutable and may be shared).
 func (in *Interp) reachable(st *State, v Value, seen map[int]bool) {
